@@ -525,6 +525,8 @@ def run(tree, rep, tier):
     r2(tree, prog, rep)
     r3(tree, prog, rep)
     r4_r5(tree, prog, rep)
+    from .. import payload
+    payload.check(tree, rep, "C03.R7", "dropped, or never delivered together with everything behind it (a record skipped)")
     r6(tree, rep, tier)
 
 
